@@ -4,6 +4,7 @@ package conc
 
 import (
 	"fmt"
+	"reflect"
 	"sort"
 	"strings"
 	"testing"
@@ -205,6 +206,7 @@ func runProgramE[E any](p qprog, src core.Source, cd lib.Codec[E]) *qrun {
 					done <- "panicked: " + lib.Short(x)
 				}
 			}()
+			bystander()
 			size, arr := q.GetSize(), q.AsArray()
 			_ = q.IsEmpty()
 			q.RemoveAll()
@@ -221,6 +223,33 @@ func runProgramE[E any](p qprog, src core.Source, cd lib.Codec[E]) *qrun {
 		}
 	}
 	return r
+}
+
+// bystander is work on other collections that has nothing to do with the queue under test: views of a Map
+// and a Catalog whose key type nobody else in this process uses are asked for their classes (views are made
+// without going through a class), a sibling list is made from a class obtained that way.  Whether a queue call
+// can proceed must not depend on what happens to unrelated collections (the class registries are process-wide).
+type bystanderKey struct{ X int }
+
+func bystander() {
+	n := lib.Notation()
+	m := col.Map[bystanderKey, int](n).Make()
+	m.SetValue(bystanderKey{1}, 1)
+	keys := m.GetKeys()
+	for _, view := range []any{keys, m.GetValues(keys), m.RemoveValues(keys), m} {
+		if c := reflect.ValueOf(view).MethodByName("GetClass"); c.IsValid() {
+			c.Call(nil)
+		}
+	}
+	c := col.Catalog[bystanderKey, int](n).Make()
+	c.SetValue(bystanderKey{2}, 2)
+	if k, ok := c.GetKeys().(col.ListLike[bystanderKey]); ok {
+		k.GetClass().Make().AppendValue(bystanderKey{3})
+	}
+	l := col.List[bystanderKey](n).MakeFromArray([]bystanderKey{{4}, {5}})
+	if part, ok := l.GetValues(1, 1).(col.ListLike[bystanderKey]); ok {
+		part.GetClass().Make().AppendValue(bystanderKey{6})
+	}
 }
 
 // ---------------------------------------------------------------- oracle 1: linearizability (Wing-Gong search)
